@@ -88,6 +88,14 @@ func hexaFast(v int64) bool {
 	return s == string(t) && hexa32.ToLong32(s) == v && refH32Dec(t) == v
 }
 
+func bit4Fast(hi, lo uint32, src uint64) bool {
+	k := int64(src)
+	return uint64(bitutil.Composite64(int32(hi), int32(lo))) == uint64(hi)<<32|uint64(lo) &&
+		uint32(bitutil.GetHigh64(k)) == uint32(src>>32) && uint32(bitutil.GetLow64(k)) == uint32(src) &&
+		uint64(bitutil.SetHigh64(k, int32(hi))) == uint64(hi)<<32|src&0xffffffff &&
+		uint64(bitutil.SetLow64(k, int32(lo))) == src&^0xffffffff|uint64(lo)
+}
+
 func bit2Fast(hi, lo uint16, src uint32) bool {
 	return uint32(bitutil.Composite32(int16(hi), int16(lo))) == uint32(hi)<<16|uint32(lo) &&
 		uint16(bitutil.GetHigh32(int32(src))) == uint16(src>>16) && uint16(bitutil.GetLow32(int32(src))) == uint16(src)
@@ -223,7 +231,11 @@ func sweepSpaces(thorough bool, seed uint64) []space {
 			func(i uint64) call {
 				p := mix(i ^ (seed+7)<<40)
 				return bitCall(4, uint32(p>>32), uint32(p), mix(p))
-			}, nil},
+			},
+			func(i uint64) bool {
+				p := mix(i ^ (seed+7)<<40)
+				return bit4Fast(uint32(p>>32), uint32(p), mix(p))
+			}},
 	}
 }
 
